@@ -9,6 +9,18 @@ A Go run-time panic (slice out of range in `Atom.string`) is the result `none`.
 namespace NetVerif.Model.Atom
 open NetVerif.Gen.C42
 
+/-! ### The Go source this model was written from
+Canonical text (go/printer, comments stripped) of every function modelled below. The extractor
+regenerates the same texts from the current tree (`Gen.C42.src*`) and `Proofs/C42.gen_src_*` state that
+they are equal: an edit to the control flow of `Lookup`/`match`/`fnv`/`String`/`string` breaks those
+theorems until this model has been re-validated against the new code and the texts updated. -/
+def srcFnv : String := "func fnv(h uint32, s []byte) uint32 {\n\tfor i := range s {\n\t\th ^= uint32(s[i])\n\t\th *= 16777619\n\t}\n\treturn h\n}"
+def srcMatch : String := "func match(s string, t []byte) bool {\n\tfor i, c := range t {\n\t\tif s[i] != c {\n\t\t\treturn false\n\t\t}\n\t}\n\treturn true\n}"
+def srcLookup : String := "func Lookup(s []byte) Atom {\n\tif len(s) == 0 || len(s) > maxAtomLen {\n\t\treturn 0\n\t}\n\th := fnv(hash0, s)\n\tif a := table[h&uint32(len(table)-1)]; int(a&0xff) == len(s) && match(a.string(), s) {\n\t\treturn a\n\t}\n\tif a := table[(h>>16)&uint32(len(table)-1)]; int(a&0xff) == len(s) && match(a.string(), s) {\n\t\treturn a\n\t}\n\treturn 0\n}"
+def srcAtomString : String := "func (a Atom) String() string {\n\tstart := uint32(a >> 8)\n\tn := uint32(a & 0xff)\n\tif start+n > uint32(len(atomText)) {\n\t\treturn \"\"\n\t}\n\treturn atomText[start : start+n]\n}"
+def srcAtomStringUnchecked : String := "func (a Atom) string() string {\n\treturn atomText[a>>8 : a>>8+a&0xff]\n}"
+def srcString : String := "func String(s []byte) string {\n\tif a := Lookup(s); a != 0 {\n\t\treturn a.String()\n\t}\n\treturn string(s)\n}"
+
 /-- `fnv(h, s)`: `for i := range s { h ^= uint32(s[i]); h *= K }` on uint32. -/
 def fnv (h : Nat) (s : List Nat) : Nat :=
   s.foldl (fun h c => ((h ^^^ c) * fnvPrime) % 4294967296) h
